@@ -4,7 +4,7 @@ import json
 import os
 import random
 import re
-from . import common, gen, shtools, project, projgen, ninjaparse
+from . import common, gen, shtools, project, projgen, ninjaparse, c06cdb
 
 LEVEL = 'proof'
 RULE = ('generated projects (libraries of all kinds, executables using them, per-target and global options with adversarial '
@@ -224,6 +224,10 @@ def run(rep):
     rep.proof_stage(coqchk=thorough)
     dis = stage_flags_model(rep, rng, 400 if thorough else 100)
     found = 0
+    # the third emitter: Graph/CompDB.v against the real CompDB / compdb_compile / compdb_link and against the command lines
+    # the real Make and Ninja handlers write for the same step; model-independent oracle on the registered arguments
+    dis_c, bad_c = c06cdb.run_stages(rep, random.Random(rng.random()), thorough)
+    found += bad_c
     # the emitter model of C06_deps / C06_targets against the real Make and Ninja rule handlers (shared with C03), with
     # its model-independent comparison of the prerequisite sets and target sets the two handlers register
     from . import c03
@@ -242,6 +246,10 @@ def run(rep):
     if dis_e and not found:
         i, call, iv, mv = dis_e[0]
         rep.fail('W:%s - emitter model and real rule handler disagree (%d cases), e.g. %r: impl %r, model %r' % (call[0], len(dis_e), call[1], iv, mv),
+                 {'obligation': 'W:' + call[0], 'call': call, 'impl': iv, 'model': mv}, found_input=False)
+    if dis_c and not found:
+        i, call, iv, mv = dis_c[0]
+        rep.fail('W:%s - compilation-database model and implementation disagree (%d cases), e.g. %r: impl %r, model %r' % (call[0], len(dis_c), call[1], iv, mv),
                  {'obligation': 'W:' + call[0], 'call': call, 'impl': iv, 'model': mv}, found_input=False)
     if dis and not found:
         i, call, iv, mv = dis[0]
